@@ -42,9 +42,6 @@ Record c03_case := {
 (* concepts may be listed with their extent_i / intent_i in any order (from_objects(is_extent=True),
    hand-made FormalConcept, JSON with permuted Inds): the MODEL runs on the listing as it is, the
    SPECIFICATION speaks about sets, i.e. about the ascending listing *)
-Fixpoint insert_nat (x : nat) (l : list nat) : list nat :=
-  match l with [] => [x] | y :: l' => if Nat.leb x y then x :: l else y :: insert_nat x l' end.
-Definition sort_nat (l : list nat) : list nat := fold_right insert_nat [] l.
 Definition canon_concept (c : concept) : concept := (sort_nat (fst c), sort_nat (snd c)).
 
 Definition concept_eqb (c d : concept) : bool :=
